@@ -43,6 +43,9 @@ type c17Case struct {
 	// CloseSendFail: the transport refuses every send made by Close (the PID clear): the socket must
 	// still be closed exactly once
 	CloseSendFail bool `json:"transport_refuses_sends_during_close,omitempty"`
+	// CloseErrno: the socket's own Close fails with this errno (EINTR, EIO, EBADF, ...): closed is closed, the
+	// descriptor is gone after the first attempt whatever it returned - still exactly one Close of the socket
+	CloseErrno int `json:"socket_close_errno,omitempty"`
 }
 
 func (k *c17Case) String() string {
@@ -348,6 +351,10 @@ func c17Check(c *mon.Ctx, k *c17Case) {
 	if k.CloseSendFail {
 		sim.SendErr = syscall.ENOBUFS
 	}
+	if k.CloseErrno != 0 {
+		sim.CloseErr = syscall.Errno(k.CloseErrno)
+		c.Add("closes_whose_socket_close_fails", 1)
+	}
 	errs := make([]error, closers)
 	var wg sync.WaitGroup
 	start := make(chan struct{})
@@ -380,9 +387,15 @@ func c17Check(c *mon.Ctx, k *c17Case) {
 		}
 		return
 	}
+	nerr := 0
 	for _, e := range errs {
-		if e != nil {
-			fail("close-error", "Close returned %v", e)
+		if e == nil {
+			continue
+		}
+		nerr++
+		// when the socket's own Close fails, the ONE call that closed it may report exactly that error
+		if k.CloseErrno == 0 || !errors.Is(e, syscall.Errno(k.CloseErrno)) || nerr > 1 {
+			fail("close-error", "Close returned %v (socket close errno planned: %d; %d Close calls reported an error)", e, k.CloseErrno, nerr)
 			return
 		}
 	}
@@ -423,6 +436,9 @@ func c17Check(c *mon.Ctx, k *c17Case) {
 
 func c17Gen(r *mon.Rand, withK4 bool) *c17Case {
 	k := &c17Case{StartSeq: mon.Pick(r, []uint32{1, 100, 0xFFFFFFF0, 0x7FFFFFFE, 0xFFFFFFFE, 0xFFFFFFFF, 0}), Seed: r.Uint64(), Closers: mon.Pick(r, []int{1, 1, 2, 4, 8}), ExtraClose: r.Intn(5), CloseSendFail: r.Chance(1, 8)}
+	if fr := r.Fork(61); fr.Chance(1, 5) {
+		k.CloseErrno = mon.Pick(fr, []int{int(syscall.EINTR), int(syscall.EINTR), int(syscall.EIO), int(syscall.EBADF), int(syscall.EAGAIN), int(syscall.ENOSPC)})
+	}
 	n := r.Range(1, 14)
 	burst := r.Chance(1, 12) // a long run of NoWait requests (dozens of outstanding ACKs) before waiting
 	if burst {
